@@ -24,7 +24,11 @@ RULE = ("(a) one step of the real Tracker.update (EF/RK2/RK4) with a plug-in for
         "ladim.main through the ROMS forcing (1300-2200 steps, frames 1..2048 steps apart in 13-16 files, release campaigns "
         "separated by empty periods, deaths by lifetime and at the open boundary, populations growing to 130000 particles, "
         "cell-dependent metric, > 100000 stored instances): every particle, every step against the scheme's tableau step "
-        "with the velocity of that time (oracle only, 1e-6). Non-trivial = field not constant in space and time.")
+        "with the velocity of that time (oracle only, 1e-6); (e) ARRANGEMENT cases (c01_order.py, always next): one run of the real "
+        "Model through the ROMS forcing on a field linear in time, with the inputs arranged the usual way and in another legal way "
+        "(per-file time units / reference times of a multi-file forcing, file names, variable order, f4 / packed storage, "
+        "release columns / header / row order / mult / lon-lat, key order and time spellings of the configuration): both must "
+        "end where the scheme prescribes (1e-6) and agree with each other (1e-9), oracle only. Non-trivial = field not constant in space and time.")
 TRUSTED = ["Coq 8.16.1 kernel + vm_compute", "hand-written model coq/Model/Tracker.v (EF, RK2, RK4, clip, analytical helpers) tied by this correspondence",
            "convergence for arbitrary smooth fields is NOT proved (partial): tableau identity + order conditions + exactness laws are"]
 ASSUMPTIONS = ["exact rational arithmetic instead of float rounding; comparison tolerance 1e-11 relative"]
@@ -57,6 +61,10 @@ def gen_cases(ctx):
 
     # deterministic scale cases, always present and always first (they draw nothing from rng)
     out = list(c01_scale.scenarios(ctx.quick))
+    # deterministic ARRANGEMENT cases (c01_order.py), always next, nothing drawn from rng either
+    import c01_order
+
+    out += c01_order.cases()
 
     def coef(scale, nz):
         return [rng.randint(-8, 8) / 8 * scale if rng.random() < nz else 0.0 for _ in range(6)]
@@ -107,6 +115,10 @@ def eval_case(desc, ctx):
         import c01_scale
 
         return c01_scale.eval_scale(desc, ctx)
+    if k == "arr":
+        import c01_order
+
+        return c01_order.eval_arr(desc, ctx)
     if k == "fstep":
         # the floating-point model of the step (Model/TrackerFloat.v): the real Tracker.update with a recording stub
         # forcing, stage positions and final position compared bit for bit (leading -9: Corr/C01All -> Corr/C01F), and
